@@ -208,7 +208,14 @@ def check_item(spec):
                 for y1 in range(1 << n):
                     for y2 in range(y1 + 1, 1 << n):
                         terms.append(z3.And(z3.Not(dot(y1)), z3.Not(dot(y2)), P[y1] != P[y2]))
-                v = st.check(s, z3.Or(*terms))
+                # case split on the secret (one query per non-zero s): the disjunction over all
+                # secrets at n=3 exceeds the resource limit, each case is decided in seconds
+                v = "unsat"
+                for sc in range(1, 1 << n):
+                    fix = z3.And(*[sb[k] == z3.BoolVal(bool(qamp.bit(sc, k))) for k in range(n)])
+                    v = st.check(s, z3.And(fix, z3.Or(*terms)))
+                    if v != "unsat":
+                        break
                 if v == "sat":
                     mdl = s.model()
                     tab = [mdl.eval(F[x], model_completion=True).as_long() for x in range(1 << n)]
